@@ -1,0 +1,23 @@
+//! Verification hooks (feature `verif-hooks`, off by default).
+//!
+//! A deterministic simulator can install a thread-local source of UUIDs, which is then consulted by
+//! all `new_v4()` constructors of the id types. Without an installed source, behavior is unchanged.
+
+use std::cell::RefCell;
+use uuid::Uuid;
+
+type Source = Box<dyn FnMut() -> Uuid>;
+
+thread_local! {
+    static UUID_SOURCE: RefCell<Option<Source>> = const { RefCell::new(None) };
+}
+
+/// Installs (or removes) the UUID source of the current thread.
+pub fn install_uuid_source(source: Option<Source>) {
+    UUID_SOURCE.with(|s| *s.borrow_mut() = source);
+}
+
+/// Returns the next UUID from the installed source, if any.
+pub fn next_uuid() -> Option<Uuid> {
+    UUID_SOURCE.with(|s| s.borrow_mut().as_mut().map(|f| f()))
+}
